@@ -224,12 +224,13 @@ def compare_document(res, xmlschema, schema, text, tag, case, rng, tier, scratch
         if api in ('iter_depth', 'iterfind'):
             continue
         eager[api] = observe(xmlschema, schema, lambda: xmlschema.XMLResource(text), api, 0)
-    for depth in (1, 2, 3):
+    long_doc = len(text) > 30000
+    for depth in ((1,) if long_doc and tier == 'quick' else (1, 2, 3)):
         claimed = depth == 1
         eager['iter_depth'] = eager_iter_depth(xmlschema, text, depth)
         eager['iterfind'] = observe(xmlschema, schema, lambda: xmlschema.XMLResource(text), 'iterfind', depth)
         for thin in (True, False):
-            kinds = list(makers) if tier == 'thorough' else rng.sample(list(makers), 2)
+            kinds = list(makers) if tier == 'thorough' else rng.sample(list(makers), 1 if long_doc else 2)
             for kind in kinds:
                 for api in APIS:
                     if api == 'iterfind' and depth == 3:
@@ -284,7 +285,9 @@ def run_gen(spec, res):
     scratch = tempfile.mkdtemp(prefix='c06-')
     for d in range(spec['docs']):
         fam = rng.choice(('shop', 'shop', 'tree', 'ctx'))
-        big = d % 8 == 0
+        # (quick tier: a shard has either a long shop document or a long flat one)
+        half = spec['tier'] == 'quick'
+        big = d % 8 == 0 and not (half and spec['gshard'] % 2)
         if big:
             # longer than several parser read buffers (16 KiB each): the streamed tree is extended while it is consumed
             fam = 'shop'
@@ -306,6 +309,22 @@ def run_gen(spec, res):
             r = D.identity_fault(doc, fam, idk, rng)
             if r:
                 variants.append((r[0], idk))
+        if big:
+            # the same damage at the end of the long document: met by the streaming reader after many chunks
+            for idk in ['dup_key', 'dangling_keyref', rng.choice(('dup_unique', 'dangling_idref', 'dup_id'))]:
+                r = D.identity_fault(doc, fam, idk, rng, late=True)
+                if r:
+                    variants.append((r[0], idk + ':late'))
+        if d % 8 == 4 and not (half and spec['gshard'] % 2 == 0):
+            # long documents of leaf records (a streamed chunk without children) with a key / keyref on the root
+            fam, version = 'flat', rng.choice(('1.0', '1.1'))
+            schema = schemas.get((fam, version)) or schemas.setdefault((fam, version), (
+                xmlschema.XMLSchema10 if version == '1.0' else xmlschema.XMLSchema11)(D.family_xsd(fam, version)))
+            prefixes = D.default_prefixes(fam, rng)
+            nrec = rng.randint(700, 1500)
+            variants = [(D.gen_flat(rng, None, nrec), 'valid'), (D.gen_flat(rng, 'dup_key_late', nrec), 'dup_key:late'),
+                        (D.gen_flat(rng, 'dangling_keyref_late', nrec), 'dangling_keyref:late')]
+            res.count('big_documents')
         for tree, fault in variants:
             text = D.render_doc(tree, fam, prefixes=prefixes)
             case = {'family': fam, 'version': version, 'doc': text, 'fault': fault}
